@@ -95,6 +95,22 @@ theorem lin_of_table (tbl : List Method) (h : TableOK tbl)
 theorem lin_append_only {c c' : Config V ρ} {s : List Tid} (ex : Exec c s c') : ∃ suf, c'.lin = c.lin ++ suf :=
   ex.lin_prefix
 
+/-! ## the fields the statements below talk about, resolved from the regenerated struct description
+
+by declared type (unexported fields may be renamed, fields may be reordered), exported fields by name -/
+def rootF : Nat := fidByType mptInfo "Key"                    -- the root key
+def dbF : Nat := fidByType mptInfo "NodeDB"                   -- the node store
+def ccF : Nat := fidByName mptInfo "ChangeCollector"          -- the change collector (exported field)
+def verF : Nat := fidByName mptInfo "Version"                 -- the version (exported field)
+def missF : Nat := fidByType mptInfo "[]Key"                  -- the missing-node key list
+def missMuF : Nat := fidByName mptInfo (mptInfo.mutexes.getD 1 "")  -- its own mutex: the trie's second mutex field
+
+/-- the handles resolve to distinct declared fields -/
+theorem field_handles_resolve :
+    [rootF, dbF, ccF, verF, missF, missMuF].all (fun i => 0 < i && i ≤ mptInfo.fields.length) = true ∧
+    [rootF, dbF, ccF, verF, missF, missMuF].eraseDups.length = 6 ∧ mptInfo.mutexes.length = 2 := by
+  decide +kernel
+
 /-! ## the obligation over the REGENERATED table -/
 
 /-- exported methods of the trie that are NOT claimed: `SetVersion` stores `Version` atomically while every
@@ -135,7 +151,7 @@ theorem mpt_pinned :
     mpt_Insert.lock = .write ∧ mpt_Delete.lock = .write ∧ mpt_Iterate.lock = .read ∧
     mpt_GetChanges.lock = .read ∧ mpt_GetChangeCount.lock = .read ∧ mpt_SaveChanges.lock = .read ∧
     mpt_SaveChanges.goroutines.map (·.fields) = [["Version"]] ∧
-    (mpt_GetNodeValueRaw.accesses.filter (fun a => a.field == "missingNodeKeys")).all
+    (mpt_GetNodeValueRaw.accesses.filter (fun a => a.fid == missF)).all
       (fun a => a.subId != 0 && a.sub != mptInfo.primary && mptInfo.mutexes.contains a.sub) = true := by
   decide +kernel
 
@@ -172,7 +188,7 @@ read of `Version` that `Insert` performs (in `insertNode`) under the write lock:
 theorem setVersion_conflict :
     ∃ a, a ∈ footprint [mpt_SetVersion] ∧ ∃ b, b ∈ footprint [mpt_Insert] ∧
       a.loc = b.loc ∧ a.write = true ∧ ¬ Protected a b :=
-  ⟨⟨5, true, 3005, none⟩, by decide +kernel, ⟨5, false, 0, some .W⟩, by decide +kernel, rfl, rfl,
+  ⟨⟨verF, true, 3000 + verF, none⟩, by decide +kernel, ⟨verF, false, 0, some .W⟩, by decide +kernel, rfl, rfl,
     by simp [Protected]⟩
 
 /-- `IterateFrom`: no conflicting pair at field level — everything it touches without the lock is either a field
@@ -192,8 +208,8 @@ write lock AND (since 0a1942f) the store's own mutex `db.mutex` -/
 theorem mergeMPTChanges_status :
     mpt_MergeMPTChanges.sections = 3 ∧
     (mpt_MergeMPTChanges.accesses.filter (fun a => a.kind == .innerWrite)).map
-      (fun a => (a.field, a.callee, a.mode, a.sub)) = [("db", "version", .write, "db." ++ levelNodeDBInfo.primary)] ∧
-    levelNodeDB_GetDBVersion.accesses.map (fun a => (a.field, a.fid, a.kind, a.mode)) = [("version", 6, .read, .read)] := by
+      (fun a => (a.fid == dbF, a.mode, a.subId != 0)) = [(true, .write, true)] ∧  -- into the store object, under another lock
+    levelNodeDB_GetDBVersion.accesses.map (fun a => (a.kind, a.mode)) = [(.read, .read)] := by
   decide +kernel
 
 /-- … so, in the LevelNodeDB's own lock space, the write of `version` (field 6, store mutex held in W mode) and
@@ -210,7 +226,7 @@ def oldMergeMPTChanges : Method :=
 
 theorem mergeMPTChangesOld_status :
     (oldMergeMPTChanges.accesses.filter (fun a => a.kind == .innerWrite)).map
-      (fun a => (a.field, a.callee, a.mode, a.subId)) = [("db", "version", .write, 0)] := by
+      (fun a => (a.fid == dbF, a.mode, a.subId)) = [(true, .write, 0)] := by
   decide +kernel
 
 /-- the pre-fix conflicting pair: the write of `version` WITHOUT the store's mutex against `GetDBVersion`'s read
@@ -235,23 +251,23 @@ store's own lock. Two facts make this sound:
 theorem reachable_callees_locked :
     -- what the trie calls on its store exists, exported, in both in-memory store types (`RebaseCurrentDB` is called
     -- only after a type assertion to *LevelNodeDB) …
-    allExportedIn memoryNodeDB (calledThrough mptScope "db" |>.filter (· != "RebaseCurrentDB")) = true ∧
-    allExportedIn levelNodeDB (calledThrough mptScope "db") = true ∧
+    allExportedIn memoryNodeDB (calledThroughT mptScope mptInfo "NodeDB" |>.filter (· != "RebaseCurrentDB")) = true ∧
+    allExportedIn levelNodeDB (calledThroughT mptScope mptInfo "NodeDB") = true ∧
     -- … what a LevelNodeDB calls on the stores below it, too …
-    allExportedIn memoryNodeDB (calledThrough levelNodeDB "current" ++ calledThrough levelNodeDB "prev") = true ∧
-    allExportedIn levelNodeDB (calledThrough levelNodeDB "current" ++ calledThrough levelNodeDB "prev") = true ∧
+    allExportedIn memoryNodeDB (calledThroughT levelNodeDB levelNodeDBInfo "NodeDB") = true ∧
+    allExportedIn levelNodeDB (calledThroughT levelNodeDB levelNodeDBInfo "NodeDB") = true ∧
     -- … and on the change collector and the node cache
-    allExportedIn changeCollector (calledThrough mptScope "ChangeCollector") = true ∧
-    allExportedIn transactionCache (calledThrough mptScope "cache") = true ∧
+    allExportedIn changeCollector (calledThroughT mptScope mptInfo "ChangeCollectorI") = true ∧
+    allExportedIn transactionCache (calledThroughT mptScope mptInfo "*statecache.TransactionCache") = true ∧
     -- all exported methods of these types hold their own lock for their whole body
     TableOK (memoryNodeDB.filter (·.exported)) ∧ TableOK (levelNodeDB.filter (·.exported)) ∧
     TableOK (changeCollector.filter (·.exported)) ∧
-    TableOK (transactionCache.filter (fun m => (calledThrough mptScope "cache").contains m.name)) := by
+    TableOK (transactionCache.filter (fun m => (calledThroughT mptScope mptInfo "*statecache.TransactionCache").contains m.name)) := by
   decide +kernel
 
 /-- a store call made by ANOTHER trie that shares this trie's store: an access to the store state (location
 `1000 + 3`) under the store's own lock (`2000 + 3`), holding none of this trie's locks -/
-def otherTrieStoreCall : FAcc := { loc := 1003, write := true, sub := 2003, held := none }
+def otherTrieStoreCall : FAcc := { loc := 1000 + dbF, write := true, sub := 2000 + dbF, held := none }
 
 theorem shared_store_lockset : LocksetOK (otherTrieStoreCall :: footprint mptScope) :=
   lockset_of_fpOK (fpOK_of_fpOKb (by decide +kernel))
@@ -268,10 +284,10 @@ theorem shared_store_no_conflict (scripts : Tid → List (Prog V ρ)) (mem0 : Lo
 /-- non-vacuity: a thread of this trie replacing the root under the write lock next to a thread that performs a
 store call for another trie satisfies the hypothesis of `shared_store_no_conflict` -/
 example : ∀ t p, p ∈ (fun (t : Tid) => match t with
-      | 0 => [(.acq .W (.wr 2 0 5 (.rel (.ret 0))) : Prog Nat Nat)]
-      | 1 => [.wr 1003 2003 7 (.ret 0)]
+      | 0 => [(.acq .W (.wr rootF 0 5 (.rel (.ret 0))) : Prog Nat Nat)]
+      | 1 => [.wr (1000 + dbF) (2000 + dbF) 7 (.ret 0)]
       | _ => []) t → Conf (otherTrieStoreCall :: footprint mptScope) none p := by
-  have hW : ({ loc := 2, write := true, sub := 0, held := some .W } : FAcc) ∈ footprint mptScope := by decide +kernel
+  have hW : ({ loc := rootF, write := true, sub := 0, held := some .W } : FAcc) ∈ footprint mptScope := by decide +kernel
   intro t p hp
   match t, hp with
   | 0, hp => simp at hp; subst hp; simp [Conf, hW]
@@ -285,7 +301,7 @@ with no lock of its own, and the exported reader `GetNodeValueRaw` reached it ho
 exported method with its helpers inlined, so that it does not depend on helper names) -/
 def oldGetNodeValueRaw : Method :=
   { mpt_GetNodeValueRaw with
-      accesses := mpt_GetNodeValueRaw.accesses.map (fun a => if a.fid == 6 then unsub a else a) }
+      accesses := mpt_GetNodeValueRaw.accesses.map (fun a => if a.fid == missF then unsub a else a) }
 
 def mptOld : List Method := [oldGetNodeValueRaw]
 
@@ -299,7 +315,7 @@ theorem mptOld_scope_not_ok :
 
 /-- the old footprint admits a race IN THE MODEL: two readers (`GetNodeValueRaw` running into absent nodes),
 both holding the read lock, both about to append to `missingNodeKeys` (location 6, no sub-lock) -/
-def oldReader : Prog Nat Unit := .acq .R (.wr 6 0 1 (.rel (.ret ())))
+def oldReader : Prog Nat Unit := .acq .R (.wr missF 0 1 (.rel (.ret ())))
 
 def oldScripts : Tid → List (Prog Nat Unit)
   | 0 => [oldReader]
@@ -317,23 +333,23 @@ theorem old_table_admits_race :
       | 1, hp => simpa [oldScripts] using hp
       | n + 2, hp => simp [oldScripts] at hp
     subst hp'
-    have hmem : ({ loc := 6, write := true, sub := 0, held := some .R } : FAcc) ∈ footprint mptOld := by decide +kernel
+    have hmem : ({ loc := missF, write := true, sub := 0, held := some .R } : FAcc) ∈ footprint mptOld := by decide +kernel
     simp [oldReader, Conf, hmem]
   · have adm0 : Admit (((init oldScripts (fun _ => 0)).set 0
         { (init oldScripts (fun _ => (0 : Nat))).thr 0 with todo := [], cur := some oldReader })) 0 .R := by
       intro u hu; simp [thr_set, hu, init]
     refine ⟨_, ⟨[0, 0, 1, 1],
       .cons (.call (p := oldReader) (rest := []) rfl rfl)
-        (.cons (.acq (m := .R) (k := .wr 6 0 1 (.rel (.ret ()))) rfl rfl adm0)
+        (.cons (.acq (m := .R) (k := .wr missF 0 1 (.rel (.ret ()))) rfl rfl adm0)
           (.cons (.call (p := oldReader) (rest := []) rfl rfl)
-            (.cons (.acq (m := .R) (k := .wr 6 0 1 (.rel (.ret ()))) rfl rfl ?adm1) .nil)))⟩, ?race⟩
+            (.cons (.acq (m := .R) (k := .wr missF 0 1 (.rel (.ret ()))) rfl rfl ?adm1) .nil)))⟩, ?race⟩
     case adm1 =>
       intro u hu
       by_cases h0 : u = 0
       · subst h0; simp [thr_set]
       · simp [thr_set, hu, h0, init]
     case race =>
-      exact ⟨0, 1, ⟨6, true, 0, some .R⟩, ⟨6, true, 0, some .R⟩, by decide,
+      exact ⟨0, 1, ⟨missF, true, 0, some .R⟩, ⟨missF, true, 0, some .R⟩, by decide,
         .inr ⟨1, .rel (.ret ()), rfl, rfl, rfl, rfl⟩, .inr ⟨1, .rel (.ret ()), rfl, rfl, rfl, rfl⟩, rfl, .inl rfl⟩
 
 
@@ -355,20 +371,17 @@ What remains a hypothesis (not derivable from the table): the NODE objects the c
 refer to are shared, but no method writes a node after it has been handed to the collector / store (nodes are
 immutable once published). The suite's `changesread` operation reads those nodes' hashes under the race detector. -/
 
-/-- the collector is the object behind field 4 of the trie -/
-theorem collector_is_field_4 : mptInfo.fields.idxOf "ChangeCollector" + 1 = 4 := by decide
-
 /-- full statement: the lockset discipline holds for the methods' accesses together with the callers' reads of
 every record a collector method hands out while it stays shared -/
 def C16_full (collector : List Method) : Prop :=
-  LocksetOK (callerAccesses 4 collector ++ footprint mptScope)
+  LocksetOK (callerAccesses ccF collector ++ footprint mptScope)
 
 /-- no method of the collector or of the trie hands out a pointer to one of its own records -/
 theorem no_record_escapes :
     (changeCollector ++ mpt).all (fun m => m.elemEscapes.isEmpty) = true := by decide +kernel
 
 theorem C16_full_holds : C16_full changeCollector := by
-  have h : callerAccesses 4 changeCollector = [] := by decide +kernel
+  have h : callerAccesses ccF changeCollector = [] := by decide +kernel
   unfold C16_full
   rw [h]
   exact lockset_of_fpOK (fpOK_of_tableOK mpt_table_ok)
@@ -379,14 +392,14 @@ def oldGetChanges : Method := { changeCollector_GetChanges with elemEscapes := [
 
 theorem C16_full_old_false : ¬ C16_full [oldGetChanges] := by
   intro h
-  have hcaller : callerAccesses 4 [oldGetChanges] = [{ loc := 1004, write := false, sub := 0, held := none }] := by
+  have hcaller : callerAccesses ccF [oldGetChanges] = [{ loc := 1000 + ccF, write := false, sub := 0, held := none }] := by
     decide +kernel
   unfold C16_full at h
   rw [hcaller] at h
-  have hmem : ({ loc := 1004, write := true, sub := 2004, held := some .W } : FAcc) ∈
-      [({ loc := 1004, write := false, sub := 0, held := none } : FAcc)] ++ footprint mptScope :=
+  have hmem : ({ loc := 1000 + ccF, write := true, sub := 2000 + ccF, held := some .W } : FAcc) ∈
+      [({ loc := 1000 + ccF, write := false, sub := 0, held := none } : FAcc)] ++ footprint mptScope :=
     List.mem_append_right _ (by decide +kernel)
-  have := h { loc := 1004, write := false, sub := 0, held := none } (by simp) _ hmem rfl (.inr rfl)
+  have := h { loc := 1000 + ccF, write := false, sub := 0, held := none } (by simp) _ hmem rfl (.inr rfl)
   simp [Protected] at this
 
 /-! ## non-vacuity: the hypotheses of `no_conflict` / `lin_of_table` are satisfiable over the regenerated table
@@ -395,11 +408,11 @@ reads the root under the read lock, records a missing key (location 6 under sub-
 returns what it read -/
 
 def exScripts : Tid → List (Prog Nat Nat)
-  | 0 => [ .acq .W (.wr 2 0 5 (.rel (.ret 0))) ]
-  | 1 => [ .acq .R (.rd 2 0 (fun v => .wr 6 7 v (.rel (.ret v)))) ]
+  | 0 => [ .acq .W (.wr rootF 0 5 (.rel (.ret 0))) ]
+  | 1 => [ .acq .R (.rd rootF 0 (fun v => .wr missF missMuF v (.rel (.ret v)))) ]
   | _ => []
 
-theorem root_not_bookkeeping : ¬ bkOf (footprint mptScope) 2 := by
+theorem root_not_bookkeeping : ¬ bkOf (footprint mptScope) rootF := by
   unfold bkOf
   decide +kernel
 
@@ -407,11 +420,11 @@ example :
     (∀ t p, p ∈ exScripts t → Conf (footprint mptScope) none p) ∧
     (∀ t p, p ∈ exScripts t → ∃ m k, p = .acq m k ∧ BodyOK k) ∧
     (∀ t p, p ∈ exScripts t → Oblivious (bkOf (footprint mptScope)) p) := by
-  have hW : ({ loc := 2, write := true, sub := 0, held := some .W } : FAcc) ∈ footprint mptScope := by decide +kernel
-  have hR : ({ loc := 2, write := false, sub := 0, held := some .R } : FAcc) ∈ footprint mptScope := by decide +kernel
-  have hM : ({ loc := 6, write := true, sub := 7, held := some .R } : FAcc) ∈ footprint mptScope := by decide +kernel
+  have hW : ({ loc := rootF, write := true, sub := 0, held := some .W } : FAcc) ∈ footprint mptScope := by decide +kernel
+  have hR : ({ loc := rootF, write := false, sub := 0, held := some .R } : FAcc) ∈ footprint mptScope := by decide +kernel
+  have hM : ({ loc := missF, write := true, sub := missMuF, held := some .R } : FAcc) ∈ footprint mptScope := by decide +kernel
   have cases3 : ∀ t p, p ∈ exScripts t →
-      p = .acq .W (.wr 2 0 5 (.rel (.ret 0))) ∨ p = .acq .R (.rd 2 0 (fun v => .wr 6 7 v (.rel (.ret v)))) := by
+      p = .acq .W (.wr rootF 0 5 (.rel (.ret 0))) ∨ p = .acq .R (.rd rootF 0 (fun v => .wr missF missMuF v (.rel (.ret v)))) := by
     intro t p hp
     match t, hp with
     | 0, hp => simp [exScripts] at hp; exact .inl hp
